@@ -37,17 +37,17 @@ func nextNonce() uint64 { return atomic.AddUint64(&nonceCounter, 1) }
 
 // MgrOpts are the manager options a case can choose.
 type MgrOpts struct {
-	SendBuffer    uint              `json:"send_buffer,omitempty"`
-	DialTimeoutMs int               `json:"dial_timeout_ms,omitempty"`
-	WithBlock     bool              `json:"with_block,omitempty"`
+	SendBuffer    uint `json:"send_buffer,omitempty"`
+	DialTimeoutMs int  `json:"dial_timeout_ms,omitempty"`
+	WithBlock     bool `json:"with_block,omitempty"`
 	// FailFastDial (with WithBlock): a blocking dial gives up at once when the address refuses
 	// the connection (grpc.FailOnNonTempDialError) instead of retrying until the dial timeout;
 	// a dial that gets no answer at all still waits for the whole timeout.
-	FailFastDial bool `json:"fail_fast_dial,omitempty"`
-	BackoffMs     int               `json:"backoff_ms,omitempty"`
-	Metadata      map[string]string `json:"metadata,omitempty"`
-	PerNodeMD     bool              `json:"per_node_md,omitempty"`
-	NoConnect     bool              `json:"no_connect,omitempty"`
+	FailFastDial bool              `json:"fail_fast_dial,omitempty"`
+	BackoffMs    int               `json:"backoff_ms,omitempty"`
+	Metadata     map[string]string `json:"metadata,omitempty"`
+	PerNodeMD    bool              `json:"per_node_md,omitempty"`
+	NoConnect    bool              `json:"no_connect,omitempty"`
 	// TightDial keeps the (short) dial timeout also for a non-blocking dial, which never waits
 	// for it (see NewClient); for cases in which the value itself matters.
 	TightDial bool `json:"tight_dial,omitempty"`
